@@ -154,16 +154,24 @@ def compare_model(defn, m, out, events, keys, rng, numeric=True, npoints=3, cyth
         for mm, tag in ((m, "lambda"), (cython_model, "cython")):
             if mm is None:
                 continue
+            # all points are evaluated first and the results are HELD while the later calls are made (a user tabulating a
+            # Jacobian along a trajectory does the same): what a call returned must not change afterwards
+            held = []
+            failed = False
             for pt in points:
                 x = [float(v) for v in pt[:ns]]
                 t = float(pt[ns])
                 theta = [float(v) for v in pt[ns + 1:ns + 1 + np_]]
                 try:
                     mm.parameters = theta
-                    val = build.evaluate(mm, NUM_EVALS[key], x, t, ns, np_, ne)
+                    held.append((pt, x, t, theta, build.evaluate(mm, NUM_EVALS[key], x, t, ns, np_, ne)))
                 except Exception as ex:
                     mism.append({"key": key, "kind": "numeric-raised-" + tag, "detail": repr(ex)[:300]})
+                    failed = True
                     break
+            if failed:
+                continue
+            for pt, x, t, theta, val in held:
                 fp = codec.full_point(sy, [float(v) for v in pt])
                 flat = val.reshape(-1)
                 bad = None
